@@ -52,7 +52,7 @@ GEN2(generateRSA, G_RSA) GEN2(generateDSA, G_DSA) GEN2(generateDH, G_DH) GEN2(ge
 
 // the SoftHSM instance: the configured mechanism list agrees with the ghost answer of isMechanismPermitted, so that a
 // function may consult either
-#define MK VP_MK_HSM(); VP_MK_MECH(); hsm->supportedMechanisms.n = 0; hsm->supportedMechanisms.push_back(IN(other_mech)); \
+#define MK VP_MK_HSM(); VP_MK_MECH(); VP_INIT_CONTAINER(hsm->supportedMechanisms); hsm->supportedMechanisms.push_back(IN(other_mech)); \
 	if (SES(MECH_PERMITTED)) hsm->supportedMechanisms.push_back(SES(MECH)); hsm->nrSupportedMechanisms = hsm->supportedMechanisms.size()
 static void mk_tmpl(CK_ATTRIBUTE* t, CK_ULONG* vals, const CK_ULONG* src)
 {
